@@ -151,7 +151,19 @@ def static_analysis(ctx):
     from harness.props import c20_probe as PR
     T.PROBE = PR.classify_library          # library functions that are in no table are classified from an observation
     t0 = time.time()
+    if not hasattr(T, 'MUTATING_NAMES_STATIC'):
+        T.MUTATING_NAMES_STATIC = set(T.MUTATING_NAMES)
+    T.MUTATING_NAMES = set(T.MUTATING_NAMES_STATIC)
     res = mutir.translate_all(common.REPO, T)
+    # private helpers (module-level, underscore-prefixed) are not entry points: they are checked where they are called
+    # (inlined; treated as writing everything when they cannot be inlined).  The names of those that do write a parameter
+    # join the names that make an unresolvable call count as a write, and the tree is translated again with them.
+    writers = sorted({r['name'].rsplit('.', 1)[1] for r in res if r.get('private') and not mutir.py_check(r['params'], r['prog'])[0]})
+    if set(writers) - T.MUTATING_NAMES:
+        T.MUTATING_NAMES = T.MUTATING_NAMES | set(writers)
+        res = mutir.translate_all(common.REPO, T)
+    ctx.extra['private_helpers'] = {r['name']: ('writes a parameter (by design; every call site is checked)' if r['name'].rsplit('.', 1)[1] in writers
+                                                else 'writes nothing it is given') for r in res if r.get('private')}
     ctx.log('translated %d function / method definitions of %s/odak in %.1fs (%d IR statements)'
             % (len(res), common.REPO, time.time() - t0, sum(r['nstmts'] for r in res)))
     # independent count of definitions (module-level functions and methods of module-level classes)
@@ -195,6 +207,8 @@ def static_analysis(ctx):
             excused[i] = 'documented in place'
         elif r['file'] in T.OUT_OF_SCOPE_FILES:
             excused[i] = 'out of scope: ' + T.OUT_OF_SCOPE_FILES[r['file']]
+        elif r.get('private'):
+            excused[i] = 'private helper: not an entry point; checked at every call site (inlined into its callers)'
     # the docstring quotes of the documented in-place updates are still in the source
     for q, quote in T.DOCUMENTED_IN_PLACE.items():
         rr = [r for r in res if r['name'] == q]
